@@ -261,12 +261,12 @@ def get_iter(ex, v):
 
 
 # --------------------------------------------------------------------------- panics
-@model(r'^core::panicking::panic(_fmt|_nounwind|_nounwind_fmt|_const::.*)?$', r'^std::rt::begin_panic', r'^core::panicking::panic_display',
-       r'^core::option::unwrap_failed$', r'^core::result::unwrap_failed$', r'^core::option::expect_failed$',
-       r'^core::panicking::(panic_bounds_check|assert_failed|unreachable_display|panic_explicit|panic_str)',
-       r'^core::slice::index::slice_(index_fail|start_index_len_fail|end_index_len_fail|index_order_fail)',
-       r'^core::str::slice_error_fail', r'^std::alloc::handle_alloc_error$', r'^alloc::raw_vec::(handle_error|capacity_overflow)',
-       r'^core::cell::panic_already', r'^core::str::traits::str_index_overflow_fail', r'^std::intrinsics::abort$')
+@model(r'^(core|std)::panicking::panic(_fmt|_nounwind|_nounwind_fmt|_const::.*)?$', r'^std::rt::begin_panic', r'^(core|std)::panicking::panic_display',
+       r'^(core|std)::option::unwrap_failed$', r'^(core|std)::result::unwrap_failed$', r'^(core|std)::option::expect_failed$',
+       r'^(core|std)::panicking::(panic_bounds_check|assert_failed|unreachable_display|panic_explicit|panic_str)',
+       r'^(core|std)::slice::index::slice_(index_fail|start_index_len_fail|end_index_len_fail|index_order_fail)',
+       r'^(core|std)::str::slice_error_fail', r'^std::alloc::handle_alloc_error$', r'^(alloc|std)::raw_vec::(handle_error|capacity_overflow)',
+       r'^(core|std)::cell::panic_already', r'^(core|std)::str::traits::str_index_overflow_fail', r'^std::intrinsics::abort$')
 def m_panic(ex, n, a, f):
     msg = n.split('::')[-1]
     for x in a:
@@ -999,7 +999,9 @@ def render_arg(ex, arg, out, flags=None):
         fi = arg.fmt_inst
         if fi is not None:
             fm = FormatterV()
-            r = ex.call(fi, [ref if isinstance(ref, Ref) else Ref(Cell(ref)), Ref(Cell(fm))])
+            # the Display instance belongs to the argument's own type (possibly &T): hand it the unpeeled reference
+            r0 = arg.ref
+            r = ex.call(fi, [r0 if isinstance(r0, Ref) else Ref(Cell(r0)), Ref(Cell(fm))])
             out.extend(fm.out)
             return
         out.append(Frag('display', (ex.p.ty(tid)['str'], v)))
